@@ -420,8 +420,9 @@ def rows_findings(p, res=None):
                 # standing in for the permute is exactly what this rule is about)
                 four = any(norm_text(x) in ("__component__(inputs.shape, 3)", "inputs.shape[3]", "inputs.size(3)") for x in uwalk(path.ret))
                 direct = [x for x in uwalk(path.ret) if isinstance(x, ast.Call) and isinstance(x.func, ast.Attribute) and x.func.attr in ("reshape", "view") and norm_text(x.func.value) == "inputs"]
-                if not (four and direct):
-                    continue
+                any_permute = any(isinstance(x, ast.Call) and isinstance(x.func, ast.Attribute) and x.func.attr in ("permute", "movedim", "moveaxis", "transpose") for x in uwalk(path.ret))
+                if not (four and direct) or any_permute:
+                    continue  # (a permute of another arity -- the 6-axis squeeze -- is INV-CONFIG's and the squeeze rules')
             # the 2-D branch of a rank dispatch is not an image path
             if any((norm_text(raw) in ("len(inputs.shape) == 2", "inputs.dim() == 2", "inputs.ndim == 2") and pol) or (norm_text(raw) in ("len(inputs.shape) == 4", "inputs.dim() == 4", "inputs.ndim == 4") and not pol) for _et, raw, pol in path.conds):
                 continue
